@@ -564,6 +564,7 @@ class Gen:
         self.sites = {}  # id -> number of places the clause was spliced
         self.dropped = []
         self.fn_segs = []
+        self._byteconsts = {}
         self._placeholders = {}
         self._consts = set()
         self.fn_ranges = []  # (byte_start, byte_end, item)
@@ -728,6 +729,20 @@ class Gen:
         for c in find_items(src.tree):
             if c["k"] == "Const" and re.search(r"\b" + re.escape(c["a"]["ident"]) + r"\b", body):
                 key = (src.rel, c["a"]["ident"])
+                val = kid(c, "value")
+                if val is not None and val["k"] == "Lit" and val["a"]["lit"].startswith('b"'):
+                    # a `&[u8]` constant initialised with a byte-string literal (Verus has no const array->slice coercion):
+                    # emitted as a function returning the same literal; uses `NAME` become `__const_NAME()` (see rewrite_body)
+                    self._byteconsts[c["a"]["ident"]] = val["a"]["lit"]
+                    if key not in self._consts:
+                        self._consts.add(key)
+                        lit = val["a"]["lit"]
+                        raw = eval(lit)  # python and rust byte-string escapes coincide for \r \n \t \\ \xHH \0
+                        seq = ", ".join(f"{b}u8" for b in raw)
+                        self.emit(f"// const {c['a']['ident']}: &[u8] = {lit};  ({src.rel}:{src.line_of(c['s'])})\n#[verifier::external_body]\n"
+                                  f"fn __const_{c['a']['ident']}() -> (r: &'static [u8]) ensures r@ =~= seq![{seq}] {{ {lit} }}\n", ("rule", "byte-const"))
+                        self.fired("byte-const")
+                    continue
                 if key in self._consts:
                     continue
                 self._consts.add(key)
@@ -905,6 +920,9 @@ class Gen:
                 loops.append((n, "for"))
             elif k == "MethodCall" and n["a"]["method"] == "for_each":
                 loops.append((n, "for_each"))
+            elif k == "MethodCall" and n["a"]["method"] == "position" and kid(n, "receiver")["k"] == "MethodCall" \
+                    and kid(n, "receiver")["a"]["method"] == "windows":
+                loops.append((n, "windows_position"))
             elif k == "MethodCall" and n["a"]["method"] in ("position", "any", "all"):
                 if n["a"]["method"] == "any" and kid(n, "receiver")["k"] == "MethodCall" and kid(n, "receiver")["a"]["method"] == "chars":
                     continue  # R6c
@@ -1021,6 +1039,23 @@ class Gen:
                 self.rw_position(it, src, fn, body, n, ed, pieces, idx)
             elif kind in ("any", "all"):
                 self.rw_any(it, src, fn, body, n, ed, pieces, idx, kind)
+            elif kind == "windows_position":
+                # R35: `S.windows(N).position(|w| P)` anywhere -> inline search loop (P spliced verbatim)
+                win = kid(n, "receiver")
+                S = T(kid(win, "receiver"))
+                N = T(kids(win, "arg")[0])
+                clo = kids(n, "arg")[0]
+                if clo["k"] != "Closure" or len(kids(clo, "input")) != 1:
+                    raise Inconclusive(f"unsupported construct: windows().position() shape at {src.rel}:{src.line_of(n['s'])}")
+                wv = T(kids(clo, "input")[0])
+                P = kid(clo, "body")
+                ed.replace(n["s"], P["s"], f"{{ let mut __i{idx}: usize = 0; let mut __r{idx}: Option<usize> = None;\n"
+                           f"        while __r{idx}.is_none() && {S}.len() >= {N} && __i{idx} <= {S}.len() - {N}", ("rule", "R35"))
+                for t, o in pieces:
+                    ed.insert(P["s"], t, o)
+                ed.insert(P["s"], f"{{ let {wv} = &{S}[__i{idx}..__i{idx} + {N}]; /*@@loop{idx}:begin@@*/ if ", ("rule", "R35"))
+                ed.replace(P["e"], n["e"], f" {{ __r{idx} = Some(__i{idx}); }} else {{ __i{idx} += 1; }} }} /*@@loop{idx}:exit@@*/ __r{idx} }}", ("rule", "R35"))
+                self.fired("R35")
             elif kind == "chars_map_join":
                 coll = kid(n, "receiver")
                 mp = kid(coll, "receiver")
@@ -1199,6 +1234,28 @@ class Gen:
                 ed.replace(B["e"], n["e"], f", None => {dflt} }})", ("rule", "R17"))
                 self.fired("R17")
 
+        # byte-string constants (see auto_consts)
+        for n in walk(body):
+            if n["k"] == "Path" and n["a"]["path"] in self._byteconsts and not any(a0 <= n["s"] and n["e"] <= b0 for a0, b0 in dead):
+                ed.replace(n["s"], n["e"], f"__const_{n['a']['path']}()", ("rule", "byte-const"))
+        # R18: Cow constructors (Cow<[u8]> is modelled as Vec<u8>)
+        for n in walk(body):
+            if n["k"] == "Call" and norm(n["a"]["func"]) in ("Cow::from", "Cow::Borrowed", "Cow::Owned") and len(kids(n, "arg")) == 1:
+                f = kid(n, "func")
+                ed.replace(f["s"], f["e"], "__cow_owned" if norm(n["a"]["func"]) == "Cow::Owned" else "__cow_borrowed", ("rule", "R18"))
+                self.fired("R18")
+        # R36: `[A, B].concat().into()`  ->  __vec_concat2(A, B)
+        for n in walk(body):
+            if n["k"] == "MethodCall" and n["a"]["method"] == "into" and kid(n, "receiver")["k"] == "MethodCall" \
+                    and kid(n, "receiver")["a"]["method"] == "concat" and kid(kid(n, "receiver"), "receiver")["k"] == "Array" \
+                    and len(kids(kid(kid(n, "receiver"), "receiver"), "elem")) == 2:
+                arr = kid(kid(n, "receiver"), "receiver")
+                A, B = kids(arr, "elem")
+                ed.replace(n["s"], A["s"], "__vec_concat2(", ("rule", "R36"))
+                ed.replace(A["e"], B["s"], ", ", ("rule", "R36"))
+                ed.replace(B["e"], n["e"], ")", ("rule", "R36"))
+                n["_handled_into"] = True
+                self.fired("R36")
         # R28: str predicates that are generic over `Pattern` (no assume_specification possible): with a char or
         #      string LITERAL argument they become calls of prelude helpers with exact specs over Seq<char>
         for n in walk(body):
@@ -1454,6 +1511,8 @@ class Gen:
                 meth, want_rc = mm.group(1), norm(mm.group(2))
             for n in walk(body):
                 if n["k"] == "MethodCall" and n["a"]["method"] == meth and len(kids(n, "arg")) == nargs:
+                    if n.get("_handled_into"):
+                        continue
                     rc = kid(n, "receiver")
                     if want_rc is not None and norm(T(rc)) != want_rc:
                         continue
@@ -1540,8 +1599,10 @@ class Gen:
             if idx >= len(loops):
                 raise Inconclusive(f"lost anchor: {it['name']} loop {idx}")
             n, kind = loops[idx]
+            if w[2] == "exit" and kind == "windows_position":
+                return ("placeholder", f"/*@@loop{idx}:exit@@*/")
             if w[2] == "begin":
-                if kind in ("chars_map_join", "chars_index"):
+                if kind in ("chars_map_join", "chars_index", "windows_position"):
                     return ("placeholder", f"/*@@loop{idx}:begin@@*/")
                 b = kid(n, "body")
                 if b is None:
